@@ -1,7 +1,7 @@
 #!/bin/bash
 # runs every check (tier $1, default quick) on the current tree and prints one line per property
 TIER="${1:-quick}"; cd "$(dirname "$0")/.."
-git -C /repo diff --quiet || echo "WARNING: /repo working tree is dirty"
+R="${VF_REPO:-/repo}"; git -C "$R" diff --quiet || echo "WARNING: $R working tree is dirty"
 for i in $(seq -w 1 20); do
   s=$(date +%s); out=$(./check C$i --tier $TIER 2>&1); rc=$?; e=$(date +%s)
   echo "C$i rc=$rc $((e-s))s  $(echo "$out" | grep "^C$i $TIER" | tail -1)"
